@@ -30,7 +30,7 @@ def fixtures(cfg):
     if cfg["h"] == "schedule":
         return [dict(b=10, t=2, n=10), dict(b=0, t=1, n=1), dict(b=3, t=3, n=2)]
     if cfg["h"] == "stream":
-        return [dict(seed=0, n_chains=2, chain_index=1), dict(seed=12345, n_chains=5, chain_index=0)]
+        return [dict(seed=0, n_chains=2, chain_index=1, verbose=False), dict(seed=12345, n_chains=5, chain_index=0, verbose=True)]
     if cfg["h"] == "vi":
         return [dict(n=3, seed=4)]
     if cfg["h"] == "vi_any":
@@ -147,6 +147,21 @@ def h_stream(ctx, cfg):
     ci = ctx.int("chain_index", 0)
     ctx.assume(ci < nc, "chain index below the number of chains")
     m = _mk_model(core)
+    # with the package's loggers at DEBUG (what --verbose configures) or at their default level: the same generator
+    import logging
+    loggers = [logging.getLogger("batchie")] + [v for v in vars(sampling).values() if isinstance(v, logging.Logger)]
+    levels = [lg.level for lg in loggers]
+    if ctx.is_true(ctx.bool("verbose")):
+        for lg in loggers:
+            lg.setLevel(logging.DEBUG)
+    try:
+        return _stream(ctx, core, sampling, m, seed, nc, ci)
+    finally:
+        for lg, lv in zip(loggers, levels):
+            lg.setLevel(lv)
+
+
+def _stream(ctx, core, sampling, m, seed, nc, ci):
     if ctx.mode != "real":
         saved = sampling.trange
         sampling.trange = lambda count, disable=True: iter(())
@@ -163,6 +178,8 @@ def h_stream(ctx, cfg):
                   "identical (seed, n_chains, chain_index) later in the same process: identical generator", key="stream depends on call history")
         ctx.prove(m.rng_.stream == "seeded" and tok is not None and tok[0] == "child",
                   "generator is default_rng of a spawned child of SeedSequence(seed)")
+        ctx.prove(m.rng_.count == 0 and not m.rng_.log, "the generator is handed to the model at the start of its stream (nothing drawn from it on the way)",
+                  key="draws taken from the chain's generator before the model gets it")
         if tok is not None and tok[0] == "child":
             ctx.prove(tok[1] == seed, "child of the given seed")
             ctx.prove(tok[2] == ci, "child selected by the chain index (distinct chains: distinct children)")
